@@ -130,6 +130,10 @@ async def answer(bundle, s, label, probes, sub):
             got.append({"raised": repr(ex)})
         out.append({"stream": got, "marks": w.marks})
         anomalies.extend(w.anomalies)
+    w = world_mod.World(s, 7)
+    w.label, w.marks = label, []
+    r = await e.execute("{ vtModField }", context={"world": w})
+    out.append({"module_field": r, "marks": w.marks})
     r = await e.execute(sdlgen.INTROSPECTION_QUERY)
     types = sorted((r.get("data") or {}).get("__schema", {}).get("types", []), key=lambda t: t["name"])
     for t in types:
@@ -142,7 +146,8 @@ async def answer(bundle, s, label, probes, sub):
 
 
 def make_bundle(label, m):
-    b = harness.Bundle(m, label=label, name_prefix="c17")
+    # the same user module with the same config for every bundle (its bake() registers per schema name)
+    b = harness.Bundle(m, label=label, name_prefix="c17", modules=[{"name": "vt.c17mod", "config": {"root": m.query}}])
     return b
 
 
